@@ -113,6 +113,7 @@ def key_of(c):
 
 FN = ["a", "b", "c"]    # named fields; a second pass names them like the identifiers the expansions use themselves
 SAME_TYPES = False     # set per case: every field has the SAME type (a derive keyed by field type must still treat each field)
+NOT_FORWARD = False    # set per case: the scalar derive is asked for explicitly, `#[mul(not(forward))]`
 GENERIC = None         # set per case: the struct is `S<T>`, every field a `T`, instantiated with this type
 
 
@@ -152,7 +153,7 @@ def fields_expr(v, var):
 
 def module(c, key, max_items):
     d, fwd, sh = c["d"], c["fwd"], c["sh"]
-    attr = f"#[{ATTR[d]}(forward)]\n" if fwd else ""
+    attr = f"#[{ATTR[d]}(forward)]\n" if fwd else (f"#[{ATTR[d]}(not(forward))]\n" if (NOT_FORWARD and d in ATTR) else "")
     base = d[:-6] if d.endswith("Assign") else d
     derives = f"#[derive(derive_more::{d}, Clone, Copy, Debug, PartialEq)]"
     if d == "Sum":       # the fold uses the type's own Add / Mul
@@ -278,6 +279,17 @@ def run(chk, tier, seed, replay):
         cases[k2] = rec
         mods.append((k2, module(c, k2, max_items)))
     GENERIC = None
+    # the scalar form asked for explicitly: `#[mul(not(forward))]` is the un-attributed derive
+    global NOT_FORWARD
+    NOT_FORWARD = True
+    for k, rec in list(cases.items()):
+        c = rec["c"]
+        if "|" in k.split("]")[-1] or c["fwd"] or c["d"] not in ATTR or c["sh"]["enum"]:
+            continue
+        k2 = k + "|not_forward"
+        cases[k2] = rec
+        mods.append((k2, module(c, k2, max_items)))
+    NOT_FORWARD = False
     log(f"[C10] {len(mods)} operator derives")
     nsh = 4
     shards = [mods[i::nsh] for i in range(nsh)]
